@@ -30,6 +30,7 @@ import (
 	"reflect"
 	"sort"
 	"strings"
+	"sync"
 	"sync/atomic"
 	"time"
 	"unsafe"
@@ -860,6 +861,8 @@ func runBinary(bin string, dir string, conf map[string]any, wait time.Duration) 
 	return cmd.ProcessState.ExitCode(), buf.String()
 }
 
+var slowSeen sync.Map
+
 func binaryChecks(res *vkit.Result, bin string) {
 	dir, err := os.MkdirTemp(vkit.TmpDir(), "c17bin")
 	if err != nil {
@@ -875,7 +878,13 @@ func binaryChecks(res *vkit.Result, bin string) {
 		return
 	}
 	srv := &http.Server{Handler: http.HandlerFunc(func(w http.ResponseWriter, r *http.Request) {
-		if n.Add(1) == 1 {
+		first := n.Add(1) == 1
+		if strings.HasPrefix(r.URL.Path, "/pool") {
+			// several pools: the first request of every pool is the slow one
+			_, seen := slowSeen.LoadOrStore(strings.SplitN(r.URL.Path, "/", 3)[1], true)
+			first = !seen
+		}
+		if first {
 			time.Sleep(2600 * time.Millisecond)
 		}
 		w.WriteHeader(200)
@@ -940,6 +949,49 @@ func binaryChecks(res *vkit.Result, bin string) {
 	}
 	res.Eval("binary/discard_overflow", true)
 	res.Sample(map[string]any{"part": "binary discard_overflow", "observed": cs})
+	// several pools: the default applies to every pool that leaves the key out, wherever it stands
+	for _, layout := range [][]string{{"false", "absent"}, {"absent", "false", "absent"}, {"true", "absent"}} {
+		var pools []any
+		var outs []string
+		for i, mode := range layout {
+			am := filepath.Join(dir, fmt.Sprintf("ammo-%d.uri", i))
+			_ = os.WriteFile(am, []byte(fmt.Sprintf("/pool%d/a\n/pool%d/b\n", i, i)), 0o644)
+			outF := filepath.Join(dir, fmt.Sprintf("multi-%s-%d.log", strings.Join(layout, "_"), i))
+			outs = append(outs, outF)
+			p := map[string]any{"id": fmt.Sprintf("p%d", i), "gun": map[string]any{"type": "http", "target": ln.Addr().String()},
+				"ammo": map[string]any{"type": "uri", "file": am}, "result": map[string]any{"type": "phout", "destination": outF},
+				"rps": map[string]any{"type": "const", "ops": 10, "duration": "4s"}, "startup": map[string]any{"type": "once", "times": 1}}
+			if mode != "absent" {
+				p["discard_overflow"] = mode == "true"
+			}
+			pools = append(pools, p)
+		}
+		slowSeen = sync.Map{}
+		exit, out := runBinary(bin, dir, map[string]any{"pools": pools, "log": map[string]any{"level": "error"}}, 90*time.Second)
+		res.Count("binary_runs", 1)
+		if exit != 0 {
+			res.Inconclusive(true, "multi-pool binary run %v: exit %d: %s", layout, exit, tail(out, 600))
+			continue
+		}
+		obs := map[string]any{}
+		for i, mode := range layout {
+			b, _ := os.ReadFile(outs[i])
+			disc := strings.Count(string(b), "\tdiscarded\t")
+			lines := strings.Count(string(b), "\n")
+			obs[fmt.Sprintf("pool %d (%s)", i, mode)] = map[string]int{"lines": lines, "discarded": disc}
+			cs := map[string]any{"layout": layout, "pool": i}
+			switch {
+			case lines == 0:
+				res.Inconclusive(true, "multi-pool run %v: pool %d wrote nothing", layout, i)
+			case mode == "false" && disc != 0:
+				res.Violate("C17/discard_overflow/false", fmt.Sprintf("pools %v: pool %d has discard_overflow: false but %d discarded lines", layout, i, disc), cs)
+			case mode != "false" && disc == 0:
+				res.Violate("C17/discard_overflow/default-multi-pool", fmt.Sprintf("pools with discard_overflow %v: pool %d (%s) produced no discarded lines although its first response took 2.6 s against a 10 rps profile (%d lines)", layout, i, mode, lines), cs)
+			}
+		}
+		res.Eval("binary/multi-pool/"+strings.Join(layout, ","), true)
+		res.Sample(map[string]any{"part": "binary discard_overflow, several pools", "layout": layout, "observed": obs})
+	}
 	// unknown keys through the CLI's own reader (viper)
 	for _, path := range [][]string{{}, {"pools", "[0]"}, {"pools", "[0]", "gun"}, {"pools", "[0]", "ammo"}, {"pools", "[0]", "result"}, {"pools", "[0]", "rps"}, {"pools", "[0]", "startup"}, {"log"}} {
 		c := mk(filepath.Join(dir, "x.log"), nil)
